@@ -255,6 +255,7 @@ func (r *RespSpec) Encode(method string) []byte {
 
 // ClientItem is one scripted write of a raw client.
 type ClientItem struct {
+	expectDone bool
 	Raw        []byte
 	Method     string // "" for garbage
 	Pipelined  bool
@@ -403,6 +404,11 @@ func (c *Client) SendNext() {
 	it := c.Script[c.next]
 	if it.SplitAt > 0 && it.SplitAt < len(it.Raw) && !it.partSent {
 		it.partSent = true
+		if it.Method != "" {
+			// (the answer may come before the rest is sent)
+			c.P.Expect(it.Method)
+			it.expectDone = true
+		}
 		c.C.Inject(it.Raw[:it.SplitAt])
 		c.LastSend = c.k.Now()
 		return
@@ -410,7 +416,7 @@ func (c *Client) SendNext() {
 	c.next++
 	it.Sent = true
 	it.SentStep = c.k.StepN
-	if it.Method != "" {
+	if it.Method != "" && !it.expectDone {
 		c.P.Expect(it.Method)
 	}
 	if it.partSent {
